@@ -1,9 +1,10 @@
 import random
-from typing import Callable, Optional
+from collections import deque
+from typing import Callable, Deque, Optional
 
 from ..packet import Packet
 from ..device import SingleDevice
-from ..sim import Environment, Store
+from ..sim import Environment, SimTime, Store
 
 
 class Wire(SingleDevice):
@@ -22,6 +23,10 @@ class Wire(SingleDevice):
     ):
         self.env = env
         self.store = Store(env)
+        # entry instants of the packets in the store, in the same (FIFO) order:
+        # one packet object may be on the wire more than once (a retransmission
+        # of the very object a TCP sender keeps), each entry with its own instant
+        self.entered: Deque[SimTime] = deque()
         self.delay_dist = delay_dist
         self.loss_rate = loss_rate
         self.wire_id = wire_id
@@ -32,9 +37,10 @@ class Wire(SingleDevice):
     def run(self, env: Environment):
         while True:
             packet = yield self.store.get()
+            entered = self.entered.popleft()
             if not self.loss_rate or random.uniform(0, 1) >= self.loss_rate:
                 # The amount of time for this packet to stay in my store
-                queued_time = self.env.now - packet.current_time
+                queued_time = self.env.now - entered
                 delay = self.delay_dist()
 
                 # If queued time for this packet is greater than its propagation delay,
@@ -61,6 +67,7 @@ class Wire(SingleDevice):
         if self.debug:
             print(f"Entered wire #{self.wire_id} at {self.env.now}: {packet}")
         packet.current_time = self.env.now
+        self.entered.append(self.env.now)
         self.store.put(packet)
 
 
